@@ -16,10 +16,16 @@ Tie    = (1) the environment compiled into the driver is compared, entry by
              branches of the generic code no shipped class uses — one
              well-formed (oracle applies), one deliberately ill-formed
              (correspondence only: the model must equal the code there too).
+         (5) `any`: Any.cast_in / cast_out (and SequenceOfAny's) for every type,
+             every atomic class and every (object type, property) datatype inside
+             ReadPropertyACK / WriteProperty / COV notification / RPM ack.
 Oracle = on the implementation alone: decode(encode(v)) == v as canonical value
          trees built by walking the class tables (not dict_contents), nothing
          left over, re-encoding gives the identical octets, octets parse back
-         to the same tag list; Annex F examples octet for octet.
+         to the same tag list; encoding twice / re-encoding twice is stable;
+         cast_out(cast_in v) == v, cast_out leaves the Any and the PDU around it
+         untouched (re-encode identical, second cast_out equal); a tag after the
+         last parameter of a PDU is refused; Annex F examples octet for octet.
 """
 import importlib.util, itertools, json, os, subprocess, sys
 from . import core
@@ -492,6 +498,10 @@ def impl_decode(node, tags, pdu):
     try:
         re = impl_encode(node, obj)
         re = {"tags": re["tags"], "hex": re["hex"]}
+        # encoding must not consume or mutate the value: a second encoding is identical
+        re2 = impl_encode(node, obj)
+        if re2["hex"] != re["hex"]:
+            re = {"err": "unstable", "exc": "second re-encoding differs: %s then %s" % (re["hex"], re2["hex"])}
     except Exception as e:
         re = {"err": err_reply(e)["k"], "exc": type(e).__name__}
     return {"r": "ok", "v": v, "rest": rest, "re": re}, obj
@@ -605,6 +615,14 @@ def run_type(ctx, drv_reqs, node, cases):
             recs.append((case, None, None))
             continue
         case_hex = enc["hex"]
+        try:
+            if impl_encode(node, obj)["hex"] != case_hex:
+                ctx.fail("encode-unstable", dict(case, hex=case_hex),
+                         "encoding %s twice gives different octets (encode mutates the value)" % node.name,
+                         type=node.name)
+        except Exception as e:
+            ctx.fail("encode-unstable", dict(case, hex=case_hex),
+                     "the second encoding of %s raises %s" % (node.name, type(e).__name__), type=node.name)
         # --- implementation: octets -> tags -> value
         dec = None
         try:
@@ -837,6 +855,295 @@ def shard_types(ctx, spec):
     drv = core.Driver("drv_c03") if ctx.model_ok else None
     sch = schema()
     run_slice(ctx, drv, [sch.nodes[i] for i in idxs], extra, per_type_mal, rng)
+
+
+# ------------------------------------------------------------------ the `any` stream: cast_in / cast_out
+
+def atomic_refs(sch):
+    """one Ref per distinct Atomic class the schemas mention"""
+    seen, out = set(), []
+    for n in sch.nodes:
+        refs = [f.ref for f in n.fields] + ([n.elem] if n.elem is not None else [])
+        for r in refs:
+            if r.k == "prim" and r.cls not in seen:
+                seen.add(r.cls)
+                out.append(r)
+    return sorted(out, key=lambda r: r.cls.__name__)
+
+
+def ref_of_class(sch, cls):
+    """Ref for an arbitrary datatype class (property datatypes), or None"""
+    from bacpypes.primitivedata import Atomic
+    from bacpypes.constructeddata import AnyAtomic
+    tr = translator()
+    if cls in sch.by_cls:
+        return tr.Ref("ty", node=sch.by_cls[cls], cls=cls)
+    if isinstance(cls, type) and issubclass(cls, AnyAtomic):
+        return tr.Ref("anyAtomic", cls=cls)
+    if isinstance(cls, type) and issubclass(cls, Atomic) and isinstance(cls._app_tag, int):
+        return tr.Ref("prim", app=cls._app_tag, cls=cls)
+    return None
+
+
+def typed_any_targets(sch):
+    """(label, Ref) for every (object type, property) of the registered object
+    classes: what `get_datatype` says a WriteProperty / ReadPropertyACK /
+    PropertyValue / COV-notification value of that property is"""
+    from bacpypes import object as O
+    out, skipped = [], 0
+    for (otype, vendor), ocls in sorted(O.registered_object_types.items(), key=lambda kv: (str(kv[0][0]), kv[0][1])):
+        for pid in sorted(ocls._properties, key=str):
+            dt = O.get_datatype(otype, pid, vendor)
+            r = ref_of_class(sch, dt) if dt is not None else None
+            if r is None or (r.k == "ty" and r.node.k == "any"):
+                skipped += 1
+                continue
+            out.append(("%s.%s" % (otype, pid), r, otype, pid))
+    return out, skipped
+
+
+def cast_instance(g, ref):
+    """(live element for Any.cast_in, canonical tree, class for cast_out)"""
+    if ref.k == "prim":
+        v = g.leaf(ref)
+        return ref.cls(v), leaf_tree(ref.cls, v), ref.cls
+    if ref.k == "anyAtomic":
+        a = g.atom()
+        return a, atom_tree(a), ref.cls
+    node = ref.node
+    obj = g.node_value(node, 1, cls=ref.cls)       # an INSTANCE (lists / arrays included)
+    return obj, tree(node, obj), ref.cls
+
+
+def cast_tree(ref, out):
+    """canonical tree of what cast_out returned"""
+    if ref.k == "prim":
+        return leaf_tree(ref.cls, out)
+    if ref.k == "anyAtomic":
+        return atom_tree(out)
+    return tree(ref.node, out)
+
+
+def ref_json(ref):
+    return {k: v for k, v in ref.js().items() if k != "cls"}
+
+
+def any_containers(rng, a, otype=None, pid=None):
+    """PDUs / structures carrying the Any `a`: (label, class, builder, getter of the decoded Any)"""
+    from bacpypes import apdu as A
+    from bacpypes.basetypes import PropertyValue
+    oid = (otype if isinstance(otype, (str, int)) else "analogValue", 3)
+    pid = pid if isinstance(pid, (str, int)) else "presentValue"
+    return [
+        ("ReadPropertyACK", A.ReadPropertyACK,
+         lambda: A.ReadPropertyACK(objectIdentifier=oid, propertyIdentifier=pid, propertyValue=a),
+         lambda p: p.propertyValue),
+        ("WritePropertyRequest", A.WritePropertyRequest,
+         lambda: A.WritePropertyRequest(objectIdentifier=oid, propertyIdentifier=pid, propertyValue=a, priority=8),
+         lambda p: p.propertyValue),
+        ("ConfirmedCOVNotificationRequest", A.ConfirmedCOVNotificationRequest,
+         lambda: A.ConfirmedCOVNotificationRequest(
+             subscriberProcessIdentifier=1, initiatingDeviceIdentifier=("device", 1),
+             monitoredObjectIdentifier=oid, timeRemaining=0,
+             listOfValues=[PropertyValue(propertyIdentifier=pid, value=a)]),
+         lambda p: p.listOfValues[0].value),
+        ("ReadPropertyMultipleACK", A.ReadPropertyMultipleACK,
+         lambda: A.ReadPropertyMultipleACK(listOfReadAccessResults=[A.ReadAccessResult(
+             objectIdentifier=oid, listOfResults=[A.ReadAccessResultElement(
+                 propertyIdentifier=pid, readResult=A.ReadAccessResultElementChoice(propertyValue=a))])]),
+         lambda p: p.listOfReadAccessResults[0].listOfResults[0].readResult.propertyValue),
+    ]
+
+
+def pdu_octets(obj):
+    from bacpypes.apdu import APDU
+    apdu = APDU()
+    obj.encode(apdu)
+    return bytes(apdu.pduData).hex()
+
+
+def pdu_from_octets(cls, hexs):
+    from bacpypes.apdu import APDU
+    apdu = APDU()
+    apdu.pduData = bytearray(bytes.fromhex(hexs))
+    obj = cls()
+    obj.decode(apdu)
+    return obj
+
+
+def any_case(ctx, sch, g, rng, label, ref, reqs, otype=None, pid=None, any_cls=None, prebuilt=None):
+    """one value through cast_in -> PDU -> octets -> PDU -> cast_out -> re-encode -> cast_out"""
+    from bacpypes.constructeddata import Any
+    from bacpypes.primitivedata import TagList
+    case = {"any": label, "class": ref.cls.__name__, "ref": ref_json(ref)}
+    if ref.k == "ty":
+        case["type_name"] = ref.node.name
+    try:
+        elem, v, klass = prebuilt or cast_instance(g, ref)
+    except core.Infra:
+        raise
+    except Exception as e:
+        raise core.Infra("any stream: cannot generate %s: %r" % (label, e))
+    case["v"] = v
+    if otype is not None:
+        case["otype"], case["pid"] = otype if isinstance(otype, (str, int)) else str(otype), \
+            pid if isinstance(pid, (str, int)) else str(pid)
+    try:
+        # cast_in == encoding the value directly
+        a = (any_cls or Any)()
+        a.cast_in(elem)
+        in_tags = [jtag(t) for t in a.tagList.tagList]
+        if ref.k == "ty":
+            tl = TagList()
+            elem.encode(tl)
+            direct = [jtag(t) for t in tl.tagList]
+            if direct != in_tags:
+                ctx.fail("any-cast-in", dict(case, direct=direct, cast=in_tags),
+                         "cast_in(%s) does not hold the tags of encoding the value directly" % label, type=label)
+        reqs.append(({"op": "castin", "ref": case["ref"], "v": v}, {"r": "ok", "tags": in_tags}, case))
+        # straight out again, twice, the Any untouched
+        for n in (1, 2):
+            out = a.cast_out(klass)
+            if core.canon(cast_tree(ref, out)) != core.canon(v):
+                ctx.fail("any-cast-value", dict(case, got=cast_tree(ref, out), round=n),
+                         "cast_out(cast_in(v)) != v for %s (look %d)" % (label, n), type=label)
+                return
+            if [jtag(t) for t in a.tagList.tagList] != in_tags:
+                ctx.fail("any-cast-mutates", dict(case, left=[jtag(t) for t in a.tagList.tagList]),
+                         "cast_out(%s) changed the tag list of the Any" % klass.__name__, type=label)
+                return
+        reqs.append(({"op": "castout", "ref": case["ref"], "tags": in_tags}, {"r": "ok", "v": v}, case))
+        if any_cls is not None:
+            return
+        # inside a PDU: decode -> cast_out -> equal -> re-encode identical -> cast_out again
+        cname, ccls, build, get = rng.choice(any_containers(rng, a, otype, pid))
+        case["container"] = cname
+        hex1 = pdu_octets(build())
+        pdu2 = pdu_from_octets(ccls, hex1)
+        pv = get(pdu2)
+        out1 = pv.cast_out(klass)
+        if core.canon(cast_tree(ref, out1)) != core.canon(v):
+            ctx.fail("any-cast-value", dict(case, hex=hex1, got=cast_tree(ref, out1)),
+                     "the %s cast out of a decoded %s differs from the value sent" % (label, cname), type=label)
+            return
+        hex2 = pdu_octets(pdu2)
+        if hex2 != hex1:
+            ctx.fail("any-cast-mutates", dict(case, hex=hex1, re=hex2),
+                     "after cast_out(%s) the decoded %s re-encodes to different octets" % (klass.__name__, cname),
+                     type=label)
+            return
+        out2 = pv.cast_out(klass)
+        if core.canon(cast_tree(ref, out2)) != core.canon(v):
+            ctx.fail("any-cast-value", dict(case, hex=hex1, got=cast_tree(ref, out2), round=2),
+                     "a second cast_out of the same %s gives a different value" % label, type=label)
+            return
+        if pdu_octets(pdu2) != hex1:
+            ctx.fail("any-cast-mutates", dict(case, hex=hex1), "second re-encoding of %s differs" % cname, type=label)
+    except core.Infra:
+        raise
+    except Exception as e:
+        ctx.fail("any-cast-raises", case, "%s: %s: %s" % (label, type(e).__name__, e), type=label,
+                 exc=type(e).__name__)
+
+
+def run_any(ctx, drv, spec=None):
+    """cast_in / cast_out of Any and SequenceOfAny:
+       direct  — a sample of EVERY constructed type, list, array and atomic class;
+       typed   — every (object type, property) datatype `get_datatype` knows, inside
+                 ReadPropertyACK / WritePropertyRequest / COV notification / RPM ack;
+       seqany  — SequenceOfAny with every ListOf class (ReadRangeACK.itemData)"""
+    from bacpypes.constructeddata import SequenceOfAny
+    sch = schema()
+    part, nparts, reps = spec or (0, 1, 1)
+    rng = ctx.sub_rng("c03-any/%d" % part)
+    g = Gen(rng, maxdepth=3)
+    reqs = []
+    tr = translator()
+    targets = []
+    for n in sch.nodes:
+        if n.k != "any" and not n.apci:      # a PDU class encodes into an APDU, it is never the content of an Any
+            targets.append(("direct:" + n.name, tr.Ref("ty", node=n, cls=n.cls), None, None, None))
+    for r in atomic_refs(sch):
+        targets.append(("direct:" + r.cls.__name__, r, None, None, None))
+    targets.append(("direct:AnyAtomic", ref_of_class(sch, __import__("bacpypes.constructeddata", fromlist=["x"]).AnyAtomic),
+                    None, None, None))
+    typed, skipped = typed_any_targets(sch)
+    if ctx.quick:
+        # every distinct datatype once, plus a random sample of the rest
+        seen, keep = set(), []
+        rng.shuffle(typed)
+        for t in typed:
+            if t[1].cls not in seen or len(keep) < 500:
+                seen.add(t[1].cls)
+                keep.append(t)
+        typed = keep
+    for label, r, otype, pid in typed:
+        targets.append(("typed:" + label, r, otype, pid, None))
+    for n in sch.nodes:
+        if n.k == "list" and n.lk == "listof":
+            targets.append(("seqany:" + n.name, tr.Ref("ty", node=n, cls=n.cls), None, None, SequenceOfAny))
+    targets = targets[part::nparts]
+    for _ in range(reps):
+        for label, r, otype, pid, acls in targets:
+            any_case(ctx, sch, g, rng, label, r, reqs, otype, pid, acls)
+    if drv and reqs:
+        model = drv.ask([r for r, _a, _c in reqs])
+        ctx.compare_stream("any", [dict(r, any=c["any"]) for r, _a, c in reqs], [a for _r, a, _c in reqs], model,
+                           sig=lambda c, m: (c["op"], c["any"].split(":")[0],
+                                             c["any"].split(":")[1].split(".")[-1], m.get("k") or "ok"))
+    else:
+        for r, _a, c in reqs:
+            ctx.count("any", (r["op"], c["any"]))
+
+
+def replay_any(ctx, drv, case):
+    """re-run one case of the `any` stream from its record"""
+    from bacpypes.constructeddata import SequenceOfAny
+    from bacpypes.primitivedata import Tag
+    sch = schema()
+    rng = ctx.sub_rng("c03-any-replay")
+    g = Gen(rng, maxdepth=3)
+    rj, v = case["ref"], case["v"]
+    tr = translator()
+    if rj["k"] == "ty":
+        named = [n for n in sch.nodes if n.name == case.get("type_name")]
+        if case.get("type_name") and not named:
+            raise core.Infra("no type %r in the tree under test" % case["type_name"])
+        node = named[0] if named else sch.nodes[rj["i"]]
+        cls = [c for c in node.classes if c.__name__ == case.get("class")] or [node.cls]
+        ref = tr.Ref("ty", node=node, cls=cls[0])
+        elem = obj_from_tree(node, v)
+        if node.k == "any":
+            raise core.Infra("nothing to cast")
+        if not isinstance(elem, cls[0]) and node.k == "list":
+            elem = cls[0](elem)
+    elif rj["k"] == "prim":
+        refs = [r for r in atomic_refs(sch) if r.cls.__name__ == case.get("class")]
+        if not refs:
+            raise core.Infra("no atomic class %r" % case.get("class"))
+        ref = refs[0]
+        elem = ref.cls(ref.cls(Tag(0, ref.app, v["p"][0], bytes.fromhex(v["p"][1]))).value)
+    else:
+        from bacpypes.constructeddata import AnyAtomic
+        ref = ref_of_class(sch, AnyAtomic)
+        elem = Tag(0, v["a"][0], v["a"][1], bytes.fromhex(v["a"][2])).app_to_object()
+    reqs = []
+    label = case.get("any", "replay")
+    # every container, so that the one that failed is among them
+    for _ in range(8):
+        any_case(ctx, sch, g, rng, label, ref, reqs, case.get("otype"), case.get("pid"),
+                 SequenceOfAny if label.startswith("seqany:") else None, prebuilt=(elem, v, ref.cls))
+    if drv and reqs:
+        ctx.compare_stream("any", [r for r, _a, _c in reqs], [a for _r, a, _c in reqs],
+                           drv.ask([r for r, _a, _c in reqs]), sig=lambda c, m: (c["op"], label))
+    else:
+        for _ in reqs:
+            ctx.count("any")
+
+
+def shard_any(ctx, spec):
+    drv = core.Driver("drv_c03") if ctx.model_ok else None
+    run_any(ctx, drv, spec)
 
 
 # ------------------------------------------------------------------ synthetic schemas
@@ -1076,6 +1383,8 @@ def replay_case(ctx, drv, case, label):
     sch = schema()
     if "annex" in case:
         return run_annex_f(ctx, drv)
+    if "any" in case:
+        return replay_any(ctx, drv, case)
     node = None
     for n in sch.nodes:
         if n.name == case.get("type"):
@@ -1123,6 +1432,15 @@ def run(ctx):
     run_annex_f(ctx, drv)
     census_nonfamily(ctx, 6 if ctx.quick else 60)
     run_synthetic(ctx, drv)
+    typed, skipped = typed_any_targets(sch)
+    ctx.extra["any_stream"] = {"object_property_datatypes": len(typed),
+                               "distinct_datatype_classes": len(set(t[1].cls for t in typed)),
+                               "skipped_untyped_or_Any": skipped,
+                               "atomic_classes": len(atomic_refs(sch))}
+    if ctx.quick:
+        core.run_shards(ctx, "harness.c03", "shard_any", [(k, 8, 1) for k in range(8)])
+    else:
+        core.run_shards(ctx, "harness.c03", "shard_any", [(k, 16, 12) for k in range(16)])
     n = len(sch.nodes)
     if ctx.quick:
         specs = [(sl, 10, 30, "q%d" % k) for k, sl in enumerate(type_slices(n, 16))]
